@@ -24,6 +24,8 @@ StOK(st) ==
                   /\ st.lst[g] = (IF opened[g] # 0 THEN msgs[g] ELSE -1)
   /\ st.acct = (IF acct = 0 THEN "nil" ELSE IF acct = opened["A"] THEN "same" ELSE "other")
   /\ \A g \in {"C", "M"} : st.jn[g] = "?" \/ st.jn[g] = (IF g \in joined THEN "y" ELSE "n")
+  \* the contact's state in the account group's index: request received (set-up) until it is accepted
+  /\ st.jn.cs = "?" \/ st.jn.cs = (IF "C" \in joined THEN "A" ELSE "R")
   /\ st.nsub = NSub
   /\ st.closed = (svc = "closed")
   /\ st.strm.on = strm.on
@@ -37,6 +39,7 @@ StOKp(st) ==   \* the same on the state AFTER the step (st itself is a constant 
                   /\ st.lst[g] = (IF opened'[g] # 0 THEN msgs'[g] ELSE -1)
   /\ st.acct = (IF acct' = 0 THEN "nil" ELSE IF acct' = opened'["A"] THEN "same" ELSE "other")
   /\ \A g \in {"C", "M"} : st.jn[g] = "?" \/ st.jn[g] = (IF g \in joined' THEN "y" ELSE "n")
+  /\ st.jn.cs = "?" \/ st.jn.cs = (IF "C" \in joined' THEN "A" ELSE "R")
   /\ st.nsub = NSub'
   /\ st.closed = (svc' = "closed")
   /\ st.strm.on = strm'.on
